@@ -8,16 +8,29 @@ use super::template_arg::TemplateArgumentId;
 
 pub type MulticlassId = Id<Multiclass>;
 
+/// What a statement in the body of a multiclass calls the records it defines, relative to the
+/// name of the instantiating defm.
+#[derive(Debug, Clone, Eq, PartialEq)]
+pub enum RecordName {
+    /// `def I` -> ("I", true), `def ""` / `def NAME` -> ("", true), `def NAME#"_x"` -> ("_x",
+    /// true). `false`: only the beginning of the name, the rest is computed (`def NAME#"_"#tag`
+    /// -> ("_", false))
+    Def(EcoString, bool),
+    /// an inner `defm X : M, N` -> "X" followed by what the records are called in M and in N.
+    /// The names are not written out (their number doubles with every level of defms). With each
+    /// multiclass goes the number of its names that existed at this point: a multiclass may
+    /// instantiate what has been defined of itself so far.
+    Defm(EcoString, Vec<(MulticlassId, usize)>),
+}
+
 #[derive(Debug, Clone, Eq, PartialEq)]
 pub struct Multiclass {
     pub name: EcoString,
     pub name_to_template_arg: IndexMap<EcoString, TemplateArgumentId>,
     pub parent_list: Vec<MulticlassId>,
     /// what the records defined in the body are called, relative to the name of the defm that
-    /// instantiates the multiclass: `def I` -> "I", `def ""` / `def NAME` -> "", `def NAME#"_x"`
-    /// -> "_x", an inner `defm X : M` -> "X" followed by the names of M. `false`: only the
-    /// beginning of the name, the rest is computed (`def NAME#"_"#tag` -> ("_", false))
-    pub record_name_list: Vec<(EcoString, bool)>,
+    /// instantiates the multiclass
+    pub record_name_list: Vec<RecordName>,
 
     pub define_loc: FileRange,
     pub reference_locs: Vec<FileRange>,
@@ -51,9 +64,9 @@ impl Multiclass {
         self.parent_list.push(parent_id);
     }
 
-    pub fn add_record_name(&mut self, name: EcoString, is_whole_name: bool) {
+    pub fn add_record_name(&mut self, record_name: RecordName) {
         #[cfg(feature = "verif")]
         crate::verif::walk_step();
-        self.record_name_list.push((name, is_whole_name));
+        self.record_name_list.push(record_name);
     }
 }
